@@ -76,6 +76,7 @@ def missingClass (g : Graph) (e : Entry) (atRoot : Bool) (isAbstract : Str → B
   | [] =>
     if tag == "pointer-target-id" then "pointer-target-id-not-fetched"
     else if normHasAbstractFrag isAbstract 64 e.op.norm && classifyReason reason == "no-record" then "fragment-on-abstract-type"
+    else if classifyReason reason == "object-argument-key" then "null-variable-in-object-argument"
     else classifyReason reason
 
 /-- verdict on the implementation's answer fields -/
